@@ -246,6 +246,20 @@ class C10(Prop):
             rng.shuffle(order)
             out.append(("random-chain", {"pt": pt, "l": [l[i] for i in order], "tz": [tz[i] for i in order]}))
 
+        # 4a. long chains (hundreds to a couple of thousand events), whole-millisecond durations, mostly short gaps
+        for m in ([257, 600, 1025] if ctx.quick else [129, 257, 513, 600, 1025, 2049]):
+            for pt in (0.5, 2):
+                ptus = pulsetime_us(pt)
+                t = T0
+                l = []
+                for _ in range(m):
+                    d = MS * rng.choice([0, 1, rng.randint(0, 3000), 1000])
+                    l.append([None, t, d, lab(rng.choice("AAAB"))])
+                    g = rng.choice([0, MS, ptus // MS * MS, ptus // MS * MS + MS, rng.randint(0, 2 * ptus) // MS * MS])
+                    t = max(t + MS, t + d + g)
+                rng.shuffle(l)
+                out.append(("long-chain", {"pt": pt, "l": l, "tz": [0] * m}))
+
         # 4b. chains whose gaps and durations are whole days plus a little (timedelta keeps days, seconds, microseconds apart)
         DAY = 86_400_000_000
         for _ in range(ctx.pick(1500, 30000)):
